@@ -60,6 +60,7 @@ Record hcstate := mkHcs {
   hist : list (Z -> option Z);          (* ghost: every value the abstract map has had, oldest first *)
   froz : nat -> nat;                    (* ghost: index in hist at which a version was replaced *)
   cnt : nat -> Z;                       (* the size counter of every table version *)
+  ulog : list nat;                      (* ghost: the threads in the order of their update steps *)
   hths : list hthread }.
 
 Section Model.
@@ -95,7 +96,7 @@ Definition ret_pc (t : hthread) : hthread :=
   mkHth (if hretry t then W0 else HDone) (hkey t) (hfun t) (hsnap t) (hbi t) (hcop t) (hnt t) (hnlen t) false (hres t) (hst t) (hwit t) (happ t) (hyield t) (hwitf t) (hdelta t) (hncnt t).
 
 Definition with_ths (s : hcstate) (i : nat) (t : hthread) : hcstate :=
-  mkHcs (lens s) (stores s) (lk s) (hcur s) (resizing s) (spec s) (hist s) (froz s) (cnt s) (upd_nth i t (hths s)).
+  mkHcs (lens s) (stores s) (lk s) (hcur s) (resizing s) (spec s) (hist s) (froz s) (cnt s) (ulog s) (upd_nth i t (hths s)).
 
 (* one step of thread i; [o] is the step's input: at W4 whether the table must grow first, at W6 whether
    a shrink is attempted, at R0 whether the attempt gives up, at R1 which bucket is copied next *)
@@ -106,15 +107,15 @@ Definition hstep (s : hcstate) (i o : nat) : hcstate :=
       match hpc_ t with
       | W0 => with_ths s i (mkHth W1 (hkey t) (hfun t) (hcur s) (bidx_of s (hcur s) (hkey t)) (hcop t) (hnt t) (hnlen t) (hretry t) (hres t) (hst t) (hwit t) (happ t) (hyield t) (hwitf t) (hdelta t) (hncnt t))
       | W1 => if lk s (hsnap t) (hbi t) then s
-              else mkHcs (lens s) (stores s) (upd_fun2 (lk s) (hsnap t) (hbi t) true) (hcur s) (resizing s) (spec s) (hist s) (froz s) (cnt s)
+              else mkHcs (lens s) (stores s) (upd_fun2 (lk s) (hsnap t) (hbi t) true) (hcur s) (resizing s) (spec s) (hist s) (froz s) (cnt s) (ulog s)
                          (upd_nth i (set_pc t W2) (hths s))
       | W2 => if resizing s
-              then mkHcs (lens s) (stores s) (upd_fun2 (lk s) (hsnap t) (hbi t) false) (hcur s) (resizing s) (spec s) (hist s) (froz s) (cnt s)
+              then mkHcs (lens s) (stores s) (upd_fun2 (lk s) (hsnap t) (hbi t) false) (hcur s) (resizing s) (spec s) (hist s) (froz s) (cnt s) (ulog s)
                          (upd_nth i (set_pc t Wwait) (hths s))
               else with_ths s i (set_pc t W3)
       | Wwait => if resizing s then s else with_ths s i (set_pc t W0)
       | W3 => if Nat.eqb (hcur s) (hsnap t) then with_ths s i (set_pc t W4)
-              else mkHcs (lens s) (stores s) (upd_fun2 (lk s) (hsnap t) (hbi t) false) (hcur s) (resizing s) (spec s) (hist s) (froz s) (cnt s)
+              else mkHcs (lens s) (stores s) (upd_fun2 (lk s) (hsnap t) (hbi t) false) (hcur s) (resizing s) (spec s) (hist s) (froz s) (cnt s) (ulog s)
                          (upd_nth i (set_pc t W0) (hths s))
       | W4 => match o with
               | 0 =>
@@ -122,17 +123,17 @@ Definition hstep (s : hcstate) (i o : nat) : hcstate :=
                     (upd_store (stores s) (hsnap t) (upd_fun (stores s (hsnap t)) (hkey t) (hfun t (stores s (hsnap t) (hkey t)))))
                     (lk s) (hcur s) (resizing s)
                     (upd_fun (spec s) (hkey t) (hfun t (spec s (hkey t))))
-                    (hist s ++ [upd_fun (spec s) (hkey t) (hfun t (spec s (hkey t)))]) (froz s) (cnt s)
+                    (hist s ++ [upd_fun (spec s) (hkey t) (hfun t (spec s (hkey t)))]) (froz s) (cnt s) (ulog s ++ [i])
                     (upd_nth i (mkHth W5 (hkey t) (hfun t) (hsnap t) (hbi t) (hcop t) (hnt t) (hnlen t) (hretry t) (hres t) (hst t) (hwit t) (S (happ t)) (hyield t) (hwitf t)
                                       (delta_of (stores s (hsnap t) (hkey t)) (hfun t (stores s (hsnap t) (hkey t)))) (hncnt t)) (hths s))
               | _ =>  (* chain full, table over its load factor: unlock, grow, retry *)
-                mkHcs (lens s) (stores s) (upd_fun2 (lk s) (hsnap t) (hbi t) false) (hcur s) (resizing s) (spec s) (hist s) (froz s) (cnt s)
+                mkHcs (lens s) (stores s) (upd_fun2 (lk s) (hsnap t) (hbi t) false) (hcur s) (resizing s) (spec s) (hist s) (froz s) (cnt s) (ulog s)
                     (upd_nth i (mkHth R0 (hkey t) (hfun t) (hsnap t) (hbi t) (hcop t) (hnt t) 1 true (hres t) (hst t) (hwit t) (happ t) (hyield t) (hwitf t) (hdelta t) (hncnt t)) (hths s))
               end
-      | W5 => mkHcs (lens s) (stores s) (upd_fun2 (lk s) (hsnap t) (hbi t) false) (hcur s) (resizing s) (spec s) (hist s) (froz s) (cnt s)
+      | W5 => mkHcs (lens s) (stores s) (upd_fun2 (lk s) (hsnap t) (hbi t) false) (hcur s) (resizing s) (spec s) (hist s) (froz s) (cnt s) (ulog s)
                     (upd_nth i (set_pc t Wadd) (hths s))
       | Wadd => mkHcs (lens s) (stores s) (lk s) (hcur s) (resizing s) (spec s) (hist s) (froz s)
-                      (fun g => if Nat.eqb g (hsnap t) then (cnt s g + hdelta t)%Z else cnt s g)
+                      (fun g => if Nat.eqb g (hsnap t) then (cnt s g + hdelta t)%Z else cnt s g) (ulog s)
                       (upd_nth i (set_pc t W6) (hths s))
       | W6 => match o with
               | 0 => with_ths s i (set_pc t HDone)
@@ -144,10 +145,10 @@ Definition hstep (s : hcstate) (i o : nat) : hcstate :=
                 | 0 =>
                   let n := len_of s (hcur s) in
                   let nl := if Nat.eqb (hnlen t) 1 then 2 * n else Nat.max 1 (n / 2) in
-                  mkHcs (lens s) (stores s) (lk s) (hcur s) true (spec s) (hist s) (froz s) (cnt s)
+                  mkHcs (lens s) (stores s) (lk s) (hcur s) true (spec s) (hist s) (froz s) (cnt s) (ulog s)
                       (upd_nth i (mkHth R1 (hkey t) (hfun t) (hcur s) (hbi t) (fun _ => false) (fun _ => None) nl (hretry t) (hres t) (hst t) (hwit t) (happ t) (hyield t) (hwitf t) (hdelta t) 0%Z) (hths s))
                 | _ =>  (* takes the flag, finds nothing to do, gives up *)
-                  mkHcs (lens s) (stores s) (lk s) (hcur s) true (spec s) (hist s) (froz s) (cnt s) (upd_nth i (set_pc t R3) (hths s))
+                  mkHcs (lens s) (stores s) (lk s) (hcur s) true (spec s) (hist s) (froz s) (cnt s) (ulog s) (upd_nth i (set_pc t R3) (hths s))
                 end
       | Rwait => if resizing s then s else with_ths s i (ret_pc t)
       | R1 => if forallb (hcop t) (seq 0 (len_of s (hsnap t))) then with_ths s i (set_pc t R2)
@@ -160,9 +161,9 @@ Definition hstep (s : hcstate) (i o : nat) : hcstate :=
               else s
       | R2 => mkHcs (lens s ++ [hnlen t]) (upd_store (stores s) (length (lens s)) (hnt t)) (lk s) (length (lens s)) (resizing s) (spec s)
                     (hist s) (fun g => if Nat.eqb g (hcur s) then length (hist s) - 1 else froz s g)
-                    (fun g => if Nat.eqb g (length (lens s)) then hncnt t else cnt s g)
+                    (fun g => if Nat.eqb g (length (lens s)) then hncnt t else cnt s g) (ulog s)
                     (upd_nth i (set_pc t R3) (hths s))
-      | R3 => mkHcs (lens s) (stores s) (lk s) (hcur s) false (spec s) (hist s) (froz s) (cnt s) (upd_nth i (ret_pc t) (hths s))
+      | R3 => mkHcs (lens s) (stores s) (lk s) (hcur s) false (spec s) (hist s) (froz s) (cnt s) (ulog s) (upd_nth i (ret_pc t) (hths s))
       | HDone => s
       | G0 => with_ths s i (mkHth G1 (hkey t) (hfun t) (hcur s) (hbi t) (hcop t) (hnt t) (hnlen t) (hretry t) (hres t) (length (hist s)) (hwit t) (happ t) (hyield t) (hwitf t) (hdelta t) (hncnt t))
       | G1 => with_ths s i (mkHth GDone (hkey t) (hfun t) (hsnap t) (hbi t) (hcop t) (hnt t) (hnlen t) (hretry t)
@@ -197,6 +198,6 @@ Definition thread_of (o : hop) : hthread :=
   end.
 
 Definition hinit (n0 : nat) (ops : list hop) : hcstate :=
-  mkHcs [n0] (fun _ _ => None) (fun _ _ => false) 0 false (fun _ => None) [fun _ => None] (fun _ => 0) (fun _ => 0%Z) (map thread_of ops).
+  mkHcs [n0] (fun _ _ => None) (fun _ _ => false) 0 false (fun _ => None) [fun _ => None] (fun _ => 0) (fun _ => 0%Z) [] (map thread_of ops).
 
 End Model.
